@@ -200,168 +200,122 @@ pub fn __as_f64<T: ToF64>(x: T) -> (r: f64) ensures r == x.to_f64_spec() { x.__t
 // R13: identity on f64 (see rule R13 of the extractor)
 pub fn __idf(x: f64) -> (r: f64) ensures r == x { x }
 
-// ---- extracted from src/solve/data.rs: struct RegretParams ----
-#[derive(Clone, Copy)]
-pub struct RegretParams {
-    /// The discount factor for positive cumulative regret or `α`.
-    ///
-    /// Positive cumulative regrets are discounted by `tᵅ/(tᵅ + 1)` every iteration `t`. Setting
-    /// alpha closer to infinity implies no discounting, while setting it at negative infinity
-    /// means imediate forgetting. Note that any non-positive value is probably not desired.
-    pub pos_regret: f64,
-    /// The discount factor for negative cumulative regret or `β`
-    ///
-    /// Negative cumulative regrets are discounted by `tᵝ/(tᵝ + 1)` every iteration `t`. The
-    /// values are the same as for positive regrets. Setting this to a non-positive value will
-    /// prevent the cumulative regret of negative regret actions from approaching negative
-    /// infinity, which can make pruning negative regret actions impossible.
-    pub neg_regret: f64,
-    /// The average strategy discount factor `γ`
-    ///
-    /// The average strategy is discounted by `(ᵗ⁄ₜ₊₁)ᵞ` every iteration t, which is equivalent to
-    /// weighting each strategy update by `tᵞ`.
-    pub strat: f64,
-    /// The scale for picking a strategy when all regrets are negative
-    ///
-    /// If all actions have negative regret, the chosen strategy can be anything. We use the
-    /// softmax of the regrets times this weight. Setting it to infinity is the same as always
-    /// playing the strategy with the highest regret. Zero is equivalent to playing each action
-    /// uniformly. No other values are recommend, but interpolate between those extremes.
-    pub no_positive: f64,
+// R5 / TYPE-SUBST: std::borrow::Borrow and std::collections::HashMap as far as the validation
+// kernel of strat_into_box uses them, with assumed contracts restating their documentation
+// (Borrow: "the borrowed value"; HashMap::get: the value stored under an equal key, if any)
+pub trait Borrow<T> {
+    spec fn bview(&self) -> T;
+    fn borrow(&self) -> (r: &T)
+        ensures *r == self.bview();
 }
-
-// R5: the four update helpers of RegretParams seen from their callers: each is a PURE function of its
-// arguments with a frame (regret_match and cum_regret do not modify the regrets).  These contracts
-// are discharged per helper by Kani harnesses on the real bodies (c08_regret_match_*,
-// c08_discount_cum_regret, c08_discount_average_strat, c02_cum_regret_formula: formula + frame,
-// bounded to slices of length <= 3), so they are cited at the bounded level, assumed beyond it.
-pub uninterp spec fn rm_spec(p: RegretParams, cum_reg: Seq<f64>) -> Seq<f64>;
-pub uninterp spec fn dcr_spec(p: RegretParams, it: u64, cum_reg: Seq<f64>) -> Seq<f64>;
-pub uninterp spec fn das_spec(p: RegretParams, it: u64, avg: Seq<f64>) -> Seq<f64>;
-pub uninterp spec fn cr_spec(p: RegretParams, it: u64, cum_reg: Seq<f64>) -> f64;
-impl RegretParams {
+#[verifier::external_body]
+#[verifier::reject_recursive_types(K)]
+#[verifier::reject_recursive_types(V)]
+pub struct HashMap<K, V> { _p: core::marker::PhantomData<(K, V)> }
+impl<K, V> HashMap<K, V> {
+    pub uninterp spec fn view(&self) -> Map<K, V>;
     #[verifier::external_body]
-    pub fn regret_match(&self, cum_reg: &mut [f64], strat: &mut [f64])
-        ensures final(strat)@ == rm_spec(*self, old(cum_reg)@), final(cum_reg)@ == old(cum_reg)@,
+    pub fn insert(&mut self, k: K, v: V) -> (r: Option<V>)
+        ensures final(self)@ == old(self)@.insert(k, v),
     { unimplemented!() }
     #[verifier::external_body]
-    pub fn discount_cum_regret(&self, it: u64, cum_reg: &mut [f64])
-        ensures final(cum_reg)@ == dcr_spec(*self, it, old(cum_reg)@),
+    pub fn get(&self, k: &K) -> (r: Option<&V>)
+        ensures match r { Some(v) => self@.contains_key(*k) && *v == self@[*k], None => !self@.contains_key(*k) },
     { unimplemented!() }
+}
+// core: `impl PartialEq<&mut B> for &A where A: PartialEq<B>` compares the pointees (twice here: && vs &mut &)
+pub axiom fn ax_ref_eq<A: PartialEq>()
+    ensures <&&A as PartialEqSpec<&mut &A>>::obeys_eq_spec(),
+        forall|a: &&A, b: &mut &A| #[trigger] <&&A as PartialEqSpec<&mut &A>>::eq_spec(&a, &b) == <A as PartialEqSpec<A>>::eq_spec(&**a, &**b);
+pub open spec fn a_eq<A: PartialEq>(x: A, y: &A) -> bool { <A as PartialEqSpec<A>>::eq_spec(&x, y) }
+// user key types: a clone is the same abstract key (Clone/Eq/Hash coherence, assumed)
+pub axiom fn ax_clone_is_equal<A: Clone>() ensures forall|a: &A, b: A| #[trigger] call_ensures(A::clone, (a,), b) ==> *a == b;
+// scanning path: the infoset's action list and the position of an action in it (the
+// `iter().enumerate().find(|(_, act)| act == &action)` chain: first position holding an equal action)
+pub struct InfoActions<A> { pub actions: Box<[A]> }
+#[verifier::external_body]
+pub fn __abs_position<A>(actions: &Box<[A]>, action: &A) -> (r: Option<usize>)
+    ensures match r { Some(i) => i < actions@.len() && actions@[i as int] == *action, None => !actions@.contains(*action) },
+{ unimplemented!() }
+// a weight the import accepts: >= 0 (so not NaN) and finite
+pub open spec fn legal(p: f64) -> bool { fge(p, 0.0f64) && fisfinite(p) }
+
+impl<K, V> HashMap<K, V> {
     #[verifier::external_body]
-    pub fn discount_average_strat(&self, it: u64, avg_strat: &mut [f64])
-        ensures final(avg_strat)@ == das_spec(*self, it, old(avg_strat)@),
-    { unimplemented!() }
-    #[verifier::external_body]
-    pub fn cum_regret(&self, it: u64, cum_reg: &mut [f64]) -> (r: f64)
-        ensures r == cr_spec(*self, it, old(cum_reg)@), final(cum_reg)@ == old(cum_reg)@,
-    { unimplemented!() }
+    pub fn with_capacity(n: usize) -> (r: Self) ensures r@ == Map::<K, V>::empty() { unimplemented!() }
+}
+// the action table of one infoset: every action mapped to base + its position
+pub open spec fn table_ok<A>(m: Map<A, usize>, acts: Seq<A>, base: int, k: int) -> bool {
+    (forall|a: A| m.contains_key(a) <==> exists|j: int| 0 <= j < k && #[trigger] acts[j] == a)
+    && (forall|j: int| 0 <= j < k ==> #[trigger] m[acts[j]] == base + j)
+}
+pub open spec fn distinct<A>(acts: Seq<A>) -> bool { forall|i: int, j: int| 0 <= i < j < acts.len() ==> acts[i] != acts[j] }
+
+// ---- extracted from src/lib.rs: struct PlayerInfosetData ----
+pub struct PlayerInfosetData<I, A> {
+    pub infoset: I,
+    pub actions: Box<[A]>,
+    pub prev_infoset: Option<usize>,
 }
 
-// ---- extracted from src/solve/data.rs: struct RegretInfoset ----
-pub struct RegretInfoset {
-    pub cum_regret: Box<[f64]>,
-    pub cum_strat: Box<[f64]>,
-    pub strat: Box<[f64]>,
-}
-
-pub trait PlayerRecurse {
-    fn update_cum_strat(&mut self, prob: f64);
-    fn advance(&mut self, it: u64, params: &RegretParams) -> f64;
-}
-pub struct Player { }
-pub struct Node { }
-pub trait ActiveInfo {
-    // callers pass the loop variable of `for it in 1..=max_iter`
-    fn advance<const FIRST: bool>(&mut self, it: u64, params: &RegretParams) -> f64
-        requires it >= 1;
-}
-
-// ---- extracted from src/solve/vanilla.rs: impl PlayerRecurse for RegretInfoset ----
-impl PlayerRecurse for RegretInfoset {
-fn advance(&mut self, it: u64, params: &RegretParams) -> (r: f64) 
-    ensures
-        // textbook order: the next strategy is matched on the regrets BEFORE discounting ...
-        final(self).strat@ == rm_spec(*params, old(self).cum_regret@), // @ob C08.V.advance.match_before_discount
-        // ... then regrets and average strategy are discounted with the caller's iteration number ...
-        final(self).cum_regret@ == dcr_spec(*params, it, old(self).cum_regret@), // @ob C08.V.advance.discount_regrets
-        final(self).cum_strat@ == das_spec(*params, it, old(self).cum_strat@), // @ob C08.V.advance.discount_average
-        // ... and the reported bound is that of the regrets AFTER discounting, same iteration number
-        r == cr_spec(*params, it, final(self).cum_regret@), // @ob C02.V.advance.reports_bound
+// ---- extracted from src/lib.rs: impl PlayerInfosetData ----
+impl<I, A> PlayerInfosetData<I, A> {
+pub fn num_actions(&self) -> (r: usize) 
+    ensures r == self.actions@.len(), // @ob C14.V.hash_import.num_actions
 {
-        params.regret_match(&mut *self.cum_regret, &mut self.strat);
-        params.discount_cum_regret(it, &mut *self.cum_regret);
-        params.discount_average_strat(it, &mut self.cum_strat);
-        params.cum_regret(it, &mut *self.cum_regret)
+        self.actions.len()
     }
 }
 
-// R5: std::sync::Mutex as far as `advance` uses it: get_mut() on an exclusively borrowed mutex
-// returns the protected value (lock poisoning -- the Err case -- is not modelled: assumed Ok)
-#[derive(Debug)]
-pub struct PoisonError { }
-pub struct Mutex<T> { pub inner: T }
-impl<T> Mutex<T> {
-    #[verifier::external_body]
-    pub fn get_mut(&mut self) -> (r: Result<&mut T, PoisonError>)
-        ensures r is Ok, *(r->Ok_0) == old(self).inner, final(self).inner == *final(r->Ok_0),
-    { unimplemented!() }
-}
-pub trait MutexPlayerRecurse {
-    fn advance(&mut self, it: u64, params: &RegretParams) -> f64;
-}
-
-// ---- extracted from src/solve/vanilla.rs: struct MutexRegretInfoset ----
-pub struct MutexRegretInfoset {
-    pub cum_regret: Box<[f64]>,
-    pub cum_strat: Mutex<Box<[f64]>>,
-    pub strat: Box<[f64]>,
-}
-
-// ---- extracted from src/solve/vanilla.rs: impl MutexPlayerRecurse for MutexRegretInfoset ----
-impl MutexPlayerRecurse for MutexRegretInfoset {
-fn advance(&mut self, it: u64, params: &RegretParams) -> (r: f64) 
+// ---- extracted from src/lib.rs: impl Game / fn strat_into_box ----
+pub fn strat_into_box__index_infoset<I: Clone, A: Clone>(info: &PlayerInfosetData<I, A>, inds: &mut HashMap<I, HashMap<A, usize>>, mut num_inds: usize) -> (out: usize)
+    requires
+        num_inds + info.actions@.len() <= usize::MAX,
+        distinct(info.actions@),
     ensures
-        final(self).strat@ == rm_spec(*params, old(self).cum_regret@), // @ob C08.V.advance.match_before_discount
-        final(self).cum_regret@ == dcr_spec(*params, it, old(self).cum_regret@), // @ob C08.V.advance.discount_regrets
-        final(self).cum_strat.inner@ == das_spec(*params, it, old(self).cum_strat.inner@), // @ob C08.V.advance.discount_average
-        r == cr_spec(*params, it, final(self).cum_regret@), // @ob C02.V.advance.reports_bound
+        // the infoset's actions get the next block of dense indices, in the infoset's own action order
+        // (the layout of the dense strategy vector everywhere else), and the running index moves past it
+        out == num_inds + info.actions@.len(), // @ob C14.V.hash_import.infoset_table
+        exists|m: HashMap<A, usize>| final(inds)@ == old(inds)@.insert(info.infoset, m)
+            && #[trigger] table_ok(m@, info.actions@, num_inds as int, info.actions@.len() as int), // @ob C14.V.hash_import.infoset_table
 {
-        params.regret_match(&mut *self.cum_regret, &mut self.strat);
-        params.discount_cum_regret(it, &mut *self.cum_regret);
-        params.discount_average_strat(it, self.cum_strat.get_mut().unwrap());
-        params.cum_regret(it, &mut *self.cum_regret)
+proof { ax_clone_is_equal::<A>(); ax_clone_is_equal::<I>(); }
+let ghost base = num_inds as int;
+let ghost acts = info.actions@;
+
+            let mut actions: HashMap<A, usize> = HashMap::with_capacity(info.num_actions());
+            for action in it: info.actions.iter() 
+invariant
+    acts == info.actions@, distinct(acts), base + acts.len() <= usize::MAX,
+    0 <= it.index@ <= acts.len(), num_inds == base + it.index@,
+    table_ok(actions@, acts, base, it.index@ as int),
+{
+proof { ax_clone_is_equal::<A>(); }
+let ghost k = it.index@ as int;
+let ghost m0 = actions@;
+
+                actions.insert(action.clone(), num_inds);
+                num_inds = num_inds + ( 1);
+            
+proof {
+    assert(actions@ == m0.insert(acts[k], (base + k) as usize));
+    assert forall|a: A| actions@.contains_key(a) <==> exists|j: int| 0 <= j < k + 1 && #[trigger] acts[j] == a by {
+        if actions@.contains_key(a) {
+            if a == acts[k] { assert(acts[k] == a); } else { assert(m0.contains_key(a)); let j = choose|j: int| 0 <= j < k && #[trigger] acts[j] == a; assert(acts[j] == a); }
+        }
+        if exists|j: int| 0 <= j < k + 1 && #[trigger] acts[j] == a {
+            let j = choose|j: int| 0 <= j < k + 1 && #[trigger] acts[j] == a;
+            if j < k { assert(acts[j] == a); assert(m0.contains_key(a)); }
+        }
+    }
+    assert forall|j: int| 0 <= j < k + 1 implies #[trigger] actions@[acts[j]] == base + j by {
+        if j < k { assert(acts[j] != acts[k]); assert(m0[acts[j]] == base + j); }
     }
 }
-
-// ---- extracted from src/solve/external.rs: struct CachedInfoset ----
-pub struct CachedInfoset {
-    pub reg: RegretInfoset,
-    pub cached: usize,
 }
-
-// ---- extracted from src/solve/external.rs: impl ActiveInfo for CachedInfoset ----
-impl ActiveInfo for CachedInfoset {
-fn advance<const FIRST: bool>(&mut self, it: u64, params: &RegretParams) -> (r: f64) 
-    ensures
-        // textbook order: the next strategy is matched on the regrets BEFORE discounting ...
-        final(self).reg.strat@ == rm_spec(*params, old(self).reg.cum_regret@), // @ob C08.V.advance.match_before_discount
-        // ... then regrets and average strategy are discounted with the caller's iteration number ...
-        final(self).reg.cum_regret@ == dcr_spec(*params, it, old(self).reg.cum_regret@), // @ob C08.V.advance.discount_regrets
-        final(self).reg.cum_strat@ == das_spec(*params, (if FIRST { (it - 1) as u64 } else { it }), old(self).reg.cum_strat@), // @ob C08.V.advance.discount_average
-        // ... and the reported bound is that of the regrets AFTER discounting, same iteration number
-        r == cr_spec(*params, it, final(self).reg.cum_regret@), // @ob C02.V.advance.reports_bound
-        final(self).cached == 0, // @ob C10.V.cached_infoset.advance_resets_draw
-{
-        self.cached = 0;
-        params.regret_match(&mut *self.reg.cum_regret, &mut self.reg.strat);
-        params.discount_cum_regret(it, &mut *self.reg.cum_regret);
-        // NOTE since we alternate updates, when do the first discounting of player one's average
-        // strat, they'll actually have nothing acumulated, so we actualy want to update on the
-        // second round
-        params.discount_average_strat(if FIRST { it - 1 } else { it }, &mut self.reg.cum_strat);
-        params.cum_regret(it, &mut *self.reg.cum_regret)
-    }
+            inds.insert(info.infoset.clone(), actions);
+        
+num_inds
 }
 
 
